@@ -2,6 +2,7 @@ package main
 
 import (
 	"fmt"
+	"time"
 
 	"github.com/netflix/rend/common"
 	"github.com/netflix/rend/handlers"
@@ -80,7 +81,23 @@ func drainGetE(resChan <-chan common.GetEResponse, errChan <-chan error) ([]comm
 
 // handlerExec applies one command to a handler and reduces the outcome to a wire.Result that
 // can be compared with expected(model, c, true). spare = spare capacity of key slices.
-func handlerExec(h handlers.Handler, c wire.Cmd, spare int) (res wire.Result) {
+func handlerExec(h handlers.Handler, c wire.Cmd, spare int) wire.Result {
+	done := make(chan wire.Result, 1)
+	go func() { done <- handlerExecRaw(h, c, spare) }()
+	select {
+	case r := <-done:
+		return r
+	case <-time.After(handlerWatchdog):
+		// the fake backends answer every request they receive at once, so a handler call that
+		// is still out after this long waits for something that will never come
+		return wire.Result{Class: "hang", Info: "handler call did not return within " + handlerWatchdog.String()}
+	}
+}
+
+// handlerWatchdog bounds a single in-process handler call (gated schedules bound themselves).
+var handlerWatchdog = 20 * time.Second
+
+func handlerExecRaw(h handlers.Handler, c wire.Cmd, spare int) (res wire.Result) {
 	defer func() {
 		if r := recover(); r != nil {
 			res = wire.Result{Class: fmt.Sprintf("panic:%v", r)}
